@@ -204,6 +204,11 @@ def _check_rows(model, table, ph, rows, ta, tol, enabled, out, stats):
             if "C01" in E and k != "PMux" and vin != exp_vin:
                 out.append(("C01", "vin-equals-parent-vout", "phase %r %s: Vin=%r parent %s Vout=%r" % (ph, n, vin, par, exp_vin)))
                 return
+            if "C04" in E and exp_vin == 0.0:
+                bad = [c for c in ("Vin (V)", "Vout (V)", "Iin (A)", "Iout (A)", "Power (W)", "Loss (W)") if r[c] != 0.0]
+                if bad:
+                    out.append(("C04", "dead-supply-all-zero", "phase %r %s (%s): its supply %r is at 0 V but the row shows %s" % (ph, n, k, par, {c: r[c] for c in bad})))
+                    return
             if "C05" not in E and "C01" in E and k == "PMux" and vin != exp_vin:
                 out.append(("C01", "vin-equals-parent-vout", "phase %r %s: Vin=%r, selected input %r Vout=%r" % (ph, n, vin, par, exp_vin)))
                 return
